@@ -61,7 +61,23 @@ def main():
                 print('VIOLATION property=%s replay=%s no-failing-input-found' % (a.pid, path))
                 print('%s FAIL tier=%s seed=%d (harness exception)' % (a.pid, tier, seed))
                 rc = 1
+    _sweep_debug_dumps(_t_start)
     sys.exit(rc)
+
+
+_t_start = __import__('time').time() - 1
+
+
+def _sweep_debug_dumps(since):
+    """the implementation dumps every admitted transaction to /tmp/<id>.transaction (DiskInterface.
+    save_transaction_for_debugging); remove the ones this run produced"""
+    import glob
+    for f in glob.glob('/tmp/*.transaction'):
+        try:
+            if os.path.getmtime(f) >= since:
+                os.unlink(f)
+        except OSError:
+            pass
 
 
 if __name__ == '__main__':
